@@ -265,7 +265,7 @@ fn configs(o: &Opts) -> Vec<IoCfg> {
     // extender predicates: none; a narrow one (the test suite's debug port 0xCCCC); one overlapping the
     // ULA and AY ranges ("claims every port with A7..A4 = 1111")
     let exts: Vec<(u16, u16)> = if o.thorough() {
-        vec![(0, 1), (0xFFFF, 0xCCCC), (0x00F0, 0x00F0), (0x8001, 0x8001)]
+        vec![(0, 1), (0xFFFF, 0xCCCC), (0x00F0, 0x00F0), (0x0101, 0x0101)]
     } else {
         vec![(0, 1), (0x00F0, 0x00F0)]
     };
